@@ -1632,8 +1632,8 @@ impl Linearizer {
             let derived = self.bounds.bounds_of(&Exp::Variable(name.clone()));
             let lower = (derived.lower - tolerance).ceil();
             let upper = (derived.upper + tolerance).floor();
-            // without an integral point the model is infeasible and the
-            // original rows report it, exactly as for integer ranges
+            // without an integral point the model is infeasible, which is
+            // stated by a row of its own (has_integer_range_without_integer)
             if lower <= upper && (lower > 0.0 || upper < 1.0) {
                 rows.push((name.clone(), lower));
             }
@@ -1690,7 +1690,7 @@ impl Linearizer {
         bounds.apply_to_domain(&mut domain);
         let mut context = Linearizer::new_from_with_bounds(constraints, domain, bounds);
         context.enforce_derived_boolean_bounds()?;
-        if context.bounds.has_unsatisfiable_range() || empty_integer_range {
+        if context.bounds.has_unsatisfiable_range() {
             // lowering rules prune with the derived ranges, a range no value
             // satisfies is not publishable as a domain, so the infeasibility it
             // proves is stated by a row
@@ -1747,6 +1747,22 @@ impl Linearizer {
                 }
             }
             context.emit_constraint(lhs, op, rhs, name)?;
+        }
+        // an integer or Boolean variable whose derived range holds no integer: the lowering
+        // rules have used that range, so the rows above need not be infeasible on their own.
+        // One contradiction row is enough, a source row may have produced it already.
+        let states_infeasibility = |constraint: &MidLinearConstraint| {
+            constraint.lhs.is_empty()
+                && constraint.comparison == Comparison::Equal
+                && constraint.rhs != 0.0
+        };
+        if empty_integer_range && !context.linear_constraints.iter().any(states_infeasibility) {
+            context.emit_constraint(
+                Exp::Number(0.0),
+                Comparison::Equal,
+                Exp::Number(1.0),
+                String::new(),
+            )?;
         }
 
         let mut linear_constraints = std::mem::take(&mut context.linear_constraints);
